@@ -19,7 +19,7 @@ from lib import VERIF
 from props import c17
 
 HEADER = ('From Coq Require Import List NArith Bool.\nImport ListNotations.\n'
-          'From SDC Require Import Http.Chunk Http.Dispatch Http.Gen_Params.\nOpen Scope N_scope.')
+          'From SDC Require Import Http.Chunk Http.Dispatch Http.Connection Http.Gen_Params.\nOpen Scope N_scope.')
 KIND = {0: 'KResponse', 1: 'KFault', 2: 'KText', 3: 'KEmpty'}
 
 
@@ -114,6 +114,79 @@ def design_expectation(tr):
     return None
 
 
+def entity_leak(tr):
+    """the replacement text of an entity that the request declared must not show up anywhere: not in the response, not in
+    what the reader hands to a handler (element text, attribute values, header block), not in a notification"""
+    mk = tr.get('entity_marker')
+    if not mk:
+        return None
+    if tr.get('entity_in_response'):
+        return f'the replacement text of the declared entity ({mk}) is part of the response (status {tr["status"]}, {tr["body_class"]})'
+    h = (tr.get('frame') or {}).get('entity_handed')
+    if h:
+        return f'the reader handed the expanded entity ({mk}) to the dispatcher / handler: {h[:3]}'
+    if tr.get('entity_in_notification'):
+        return f'the expanded entity ({mk}) was sent on in a notification'
+    for d in tr.get('direct_reads') or []:
+        if d['handed']:
+            return (f'MessageReader.read_received_message of the {d["reader"]} (validate={d["validate"]}) returns a message that contains '
+                    f'the expanded entity ({mk}): {d["handed"][:3]}')
+    return None
+
+
+def seq_oracle(tr):
+    """several requests on one kept-alive connection: (clause, text, index of the offending request) or None"""
+    n, rs = tr['n_requests'], tr['responses']
+    m = len(rs)
+
+    def first_divergence():
+        for j in range(min(m, n)):
+            exp, mid, r = tr['expect'][j], tr['message_ids'][j], rs[j]
+            if exp is not None and r['status'] != exp:
+                return j, f'response {j + 1} has status {r["status"]}, request {j + 1} ({tr["kinds"][j]}) must be answered with {exp}'
+            if tr['valid'][j] and mid and r['relates_to'] and r['relates_to'] != mid:
+                return j, f'response {j + 1} relates to {r["relates_to"]}, request {j + 1} has MessageID {mid}'
+            if not tr['valid'][j] and r['relates_to'] and r['relates_to'] in [x for x in tr['message_ids'] if x]:
+                return j, f'response {j + 1} answers another request of the connection ({r["relates_to"]})'
+        return None
+    if tr['spin'] or tr['reads'] > tr['read_budget']:
+        return 'spin', f'the connection was not finished within {tr["read_budget"]} reads', 0
+    if tr['escaped']:
+        return 'escape', f'exception left the request handler: {tr["escaped"]}', max(0, m - 1)
+    if tr['propagated']:
+        return 'middleware-exception', f'{tr["propagated"]} left the middleware', max(0, m - 1)
+    if tr['resolved'] or tr['canary_in_response']:
+        return 'entity-resolution', f'external entity resolved: {tr["resolved"][:2]}', 0
+    for r in rs:            # a response that answers the request hidden in the body of another request
+        if r['relates_to'] and r['relates_to'] in [x for x in tr.get('inner_ids', []) if x]:
+            j = tr['inner_ids'].index(r['relates_to'])
+            return ('smuggled', f'the body of request {j + 1} ({tr["kinds"][j]}) is a complete request; it was executed and answered '
+                                f'(RelatesTo {r["relates_to"]}): {n} requests sent, handler ran {len(tr["entered"])}, {m} responses', j)
+    div = first_divergence()
+    culprit = max(0, div[0] - 1) if div else max(0, min(m, n) - 1)
+    if len(tr['entered']) > n or m > n or tr['unparsed_output']:
+        return ('smuggled', f'{n} requests were sent on the connection, the handler ran {len(tr["entered"])} requests and wrote {m} responses'
+                            f' (+{tr["unparsed_output"]} bytes): body bytes of request {culprit + 1} ({tr["kinds"][culprit]}) were taken for a '
+                            f'request' + (f'; {div[1]}' if div else ''), culprit)
+    if div:
+        return 'misaligned', div[1], (div[0] - 1 if div[0] > 0 and not tr['valid'][div[0] - 1] else div[0])
+    if m == 0:
+        return 'no-response', 'no response at all on the connection', 0
+    if m < n and not tr['closes'][m - 1]:
+        return ('unanswered', f'{n} requests, only {m} responses although request {m} ({tr["kinds"][m - 1]}) gives no reason to close '
+                              f'the connection', m - 1)
+    for j, r in enumerate(rs):
+        if r['body_class'] in ('unparseable', 'envelope-without-body') or (r['status'] and r['status'] >= 400 and r['body_class'] == 'fault'
+                                                                               and not r['wellformed']):
+            return 'malformed-response', f'response {j + 1}: status {r["status"]} with a body that is {r["body_class"]}', j
+    for j, ch in enumerate(tr['per_request_changed'][:n]):
+        if ch and not tr['valid'][j]:
+            return 'state-changed', f'request {j + 1} ({tr["kinds"][j]}) was rejected but {ch} changed while it was handled', j
+    if tr['state_changed'] and not any(tr['valid'][:m]):
+        return 'state-changed', f'no valid request was answered but {tr["state_changed"]} changed', 0
+    return None
+
+
 def world_oracle(tr):
     """the property on one delivery (None = fine)"""
     if tr['spin'] or tr['reads'] > tr['read_budget']:
@@ -126,6 +199,11 @@ def world_oracle(tr):
         return 'entity-resolution', f'the XML parser tried to resolve {tr["resolved"][:3]}'
     if tr['canary_in_response']:
         return 'xxe', 'content of the canary file appears in the response'
+    if tr.get('header_injected'):
+        return 'header-injection', 'text of the request ended up as a header line of the response (line break in the reason phrase)'
+    ent = entity_leak(tr)
+    if ent:
+        return 'entity-expanded', ent
     if tr['body_class'] in ('unparseable', 'envelope-without-body'):
         return 'malformed-response', f'status {tr["status"]} with a body that is {tr["body_class"]}'
     f = tr['frame']
@@ -251,12 +329,13 @@ def run(ctx):  # noqa: C901, PLR0912, PLR0915
     ctx.log(f'reader done at {__import__("time").time() - ctx.t0:.0f}s')
     # ------------------------------------------------------------ world stream
     n_worlds = ctx.n(1, 4)
-    per_world = ctx.n(1200, 5000)
-    traces = []
+    per_world = ctx.n(1000, 5000)
+    traces, seqs, wsds = [], [], []
     meta = []
     for w in range(n_worlds):
         canary = f'/tmp/c13_canary_{os.getpid()}_{w}.txt'
-        cfg = {'seed': rng.getrandbits(48), 'n': per_world, 'n_consumer': per_world // 6, 'canary_file': canary,
+        cfg = {'seed': rng.getrandbits(48), 'n': per_world, 'n_consumer': per_world // 6, 'n_seq': ctx.n(160, 700),
+               'n_wsd': ctx.n(60, 300), 'canary_file': canary,
                'canary_content': f'C13-CANARY-{rng.getrandbits(64):016x}', 'keep_hex': 0, 'valid_share': 0.25}
         wi = ctx.impl('c13_impl', {'world': cfg}, timeout=1500)
         if wi.get('_crash'):
@@ -276,6 +355,12 @@ def run(ctx):  # noqa: C901, PLR0912, PLR0915
             tr['world'] = w
             tr['cfg'] = cfg
             traces.append(tr)
+        for tr in wd.get('seq', []):
+            tr['cfg'] = cfg
+            seqs.append(tr)
+        for tr in wd.get('wsd', []):
+            tr['cfg'] = cfg
+            wsds.append(tr)
     ctx.log(f'worlds done at {__import__("time").time() - ctx.t0:.0f}s')
     hist_type, hist_mut, hist_status, hist_stage = {}, {}, {}, {}
     n_handler_lits = n_mw_lits = n_rejected_checked = n_expect = 0
@@ -293,7 +378,8 @@ def run(ctx):  # noqa: C901, PLR0912, PLR0915
         bad = world_oracle(tr)
         if bad:
             ctx.fail(f'{tr["endpoint"]} {tr["method"]} {tr["label"]} [{tr["mutation"]}]: {bad[1]}',
-                     {'stream': 'world', 'clause': bad[0], 'family': fam},
+                     dict({'stream': 'world', 'clause': bad[0], 'family': fam},
+                          **({'reference_in': 'attribute' if 'attr' in (tr['mutation'] or '') else 'content'} if bad[0] == 'entity-expanded' else {})),
                      {'stream': 'world', 'case': {'world': tr['cfg'], 'request_type': tr['label'], 'mutation': tr['mutation'], 'method': tr['method'],
                                                   'path': tr['path'], 'raw_request_hex': tr.get('raw_hex')},
                       'impl_trace': {k: v for k, v in tr.items() if k not in ('cfg', 'raw_hex')},
@@ -362,6 +448,68 @@ def run(ctx):  # noqa: C901, PLR0912, PLR0915
               rejected_with_snapshot=n_rejected_checked, provider_requests=len(prov_top),
               accepted_share=round(sum(1 for t in prov_top if t['status'] == 200) / max(1, len(prov_top)), 3),
               worlds=meta)
+    hist_kind, hist_len, n_short, n_seq_req = {}, {}, 0, 0
+    for tr in seqs:
+        n_seq_req += tr['n_requests']
+        hist_len[str(tr['n_requests'])] = hist_len.get(str(tr['n_requests']), 0) + 1
+        n_short += len(tr['responses']) < tr['n_requests']
+        for k in tr['kinds']:
+            hist_kind[k] = hist_kind.get(k, 0) + 1
+        bad = seq_oracle(tr)
+        if bad:
+            j = bad[2]
+            ctx.fail(f'connection with {tr["n_requests"]} requests {tr["kinds"]}: {bad[1]}',
+                     {'stream': 'seq', 'clause': bad[0], 'kind': tr['kinds'][j]},
+                     {'stream': 'seq', 'case': {'world': tr['cfg'], 'kinds': tr['kinds'], 'raw_connection_hex': tr.get('raw_hex')},
+                      'impl_trace': {k: v for k, v in tr.items() if k not in ('cfg', 'raw_hex')},
+                      'oracle': {'verdict': 'fail', 'clause': bad[0], 'request_index': j}})
+    # the connection loop of the model on the same sequences: answers up to the first close must agree
+    clits, cidx = [], []
+    for k, tr in enumerate(seqs):
+        if not tr.get('model_items') or tr['escaped'] or tr['spin']:
+            continue
+        items = tr['model_items']
+        lit_items = '[' + '; '.join(
+            f'({b(p)}, ({b(hd[0])}, {hd[1]}, {hd[2]}), {c17.OB(c17.lat(ce))}, ({b(dp[0])}, {dp[1]}), ({cm[0]}, {cm[1]}, {cm[2]}), {b(dec)})'
+            for p, hd, ce, dp, cm, dec in items) + ']'
+        got = []
+        for r in tr['responses'][:len(items)]:
+            kind = 0 if r['status'] == 200 else 1 if r['body_class'] == 'fault' else \
+                (3 if r['body_class'] == 'empty' and (r.get('content_type') or '').startswith('text/plain') else 2 if r['body_class'] in ('text', 'empty') else 9)
+            got.append(res_lit(['answer', r['status'], kind]))
+        clits.append((f'({lit_items}, {c17.B(bytes.fromhex(tr["wires_hex"]))})', '[' + '; '.join(got) + ']'))
+        cidx.append(k)
+    cm, err = ctx.coq_mism('connection', HEADER, 'results_eqb', 'run_conn_answers hdr_max available_encodings', clits, shard=60,
+                           deps=['Http/Connection.vo', 'Http/Gen_Params.vo'])
+    if err:
+        ctx.broken('correspondence', 'connection (coq evaluation)', err)
+    for j in cm[:1]:
+        tr = seqs[cidx[j]]
+        ctx.broken('correspondence', 'connection', {
+            'disagreements': len(cm), 'first': {'kinds': tr['kinds'], 'world': tr['cfg'],
+                                                 'impl_responses': [(r['status'], r['body_class']) for r in tr['responses']],
+                                                 'model': ctx.coq_eval(HEADER, f'run_conn_answers hdr_max available_encodings {clits[j][0]}')[-400:],
+                                                 'raw_connection_hex': (tr.get('raw_hex') or '')[:6000]}})
+    ctx.count('seq', n_seq_req, [('seq', k) for k, _t in enumerate(seqs)], connections=len(seqs), request_kinds=hist_kind, requests_per_connection=hist_len,
+              connections_closed_early_by_design=n_short, connections_compared_with_model=len(clits))
+    hist_wsd = {}
+    for tr in wsds:
+        key = f'{tr.get("op")}:{"handled" if tr.get("handled") else "ignored"}'
+        hist_wsd[key] = hist_wsd.get(key, 0) + 1
+        why = None
+        if tr.get('error'):
+            continue
+        if tr['handed']:
+            why = ('entity-expanded', f'WS-Discovery {tr["kind"]} datagram: the expanded entity ({tr["marker"]}) reached the discovery handler: {tr["handed"][:3]}')
+        elif tr['resolved']:
+            why = ('entity-resolution', f'WS-Discovery datagram: the parser tried to resolve {tr["resolved"][:2]}')
+        elif tr['escaped']:
+            why = ('escape', f'WS-Discovery datagram: exception left the receive loop: {tr["escaped"]}')
+        if why:
+            ctx.fail(why[1], {'stream': 'wsd', 'clause': why[0], 'reference_in': 'attribute' if 'attr' in (tr.get('op') or '') else 'content'},
+                     {'stream': 'wsd', 'case': {'world': tr['cfg'], 'kind': tr['kind'], 'op': tr['op'], 'datagram_hex': tr.get('datagram_hex')},
+                      'impl_trace': {k: v for k, v in tr.items() if k not in ('cfg', 'datagram_hex')}, 'oracle': {'verdict': 'fail', 'clause': why[0]}})
+    ctx.count('wsd', len(wsds), [(t.get('kind'), t.get('op'), t.get('marker')) for t in wsds], histogram=hist_wsd, oracle_only=True)
     for t in traces:
         if t['mutation'] and t['mutation'].startswith('xml:') and t['status'] and t['status'] >= 400:
             ctx.sample({'stream': 'world', 'request_type': t['label'], 'mutation': t['mutation'], 'status': t['status'],
@@ -380,13 +528,21 @@ def run(ctx):  # noqa: C901, PLR0912, PLR0915
              'compared with the model; watchdog = 3*len+32 reads. world: seeded structure-aware mutations of valid requests of '
              'every type through the full stack of a real provider/consumer; every delivery judged by the oracle (answered, '
              'well-formed SOAP or fault, bounded reads, no entity resolution, snapshots unchanged when status >= 400) and its '
-             'observed stage outcomes replayed on the model (status and body class must agree). distinct = distinct cases.',
+             'observed stage outcomes replayed on the model (status and body class must agree). Every declared-entity case '
+             '(marker referenced in element content, echoed header fields, attribute values, via parameter entities, nested) is judged '
+             'on the response, on what the reader hands to the dispatcher, on notifications, and by reading the same bytes directly with '
+             'the provider and consumer MessageReader (validate on/off); wsd: the same through NetworkingThread._run_q_read. '
+             'seq: 3-6 requests (valid, unknown path, request hidden in a body, bad method / headers, damaged framing, GET with body, '
+             'oversized) on ONE connection through the real handler loop: one response per request in order (status by design, RelatesTo '
+             '= MessageID), no extra handler run, state changes only by valid requests; answers compared with Http.Connection.run_conn. '
+             'distinct = distinct cases.',
         assumptions=['rfile.read(n) returns at most n bytes and b"" only at end of data',
                      'a service handler that does not complete leaves MDIB and subscription table unchanged (premise of '
                      'C13_rejected_state_unchanged; checked by the snapshot oracle on every rejected request of the world stream)',
                      'serializing a fault reply does not raise (p_fault_reply, p_recover: checked in the world stream - do_post '
                      'returned normally in every delivery - or reason phrase encodable)',
-                     'model = pinned source plus fixes/C13_reader_framing.diff and fixes/C13_handler_total.diff'],
+                     'model = /repo HEAD plus fixes/C13_reject_doctype.diff and fixes/C13_get_body_unread.diff',
+                     'request lines and header blocks are parsed by http.server (not modelled): the connection model holds body bytes only'],
         trusted_base=['translator harness/impl/gen_http_params.py',
                       'correspondence harness harness/impl/c13_impl.py, c17_impl.py (in-memory sockets, loop-back SOAP client, inline SCO worker, '
                       'instrumented middleware proxies, mutation operators)',
